@@ -156,16 +156,22 @@ def judge_common(ctx, prop, progres, stress_runs, races):
 
 
 def check(ctx, prop):
+    import time
+    t0 = time.time()
     ctx.build_harness()
     names = QUICK if ctx.quick else THOROUGH
     progres = run_programs(ctx, names, 1500 if ctx.quick else 12000)
+    ctx.notes.append('phase programs+replay %.1fs' % (time.time() - t0)); t0 = time.time()
     runs, races = stress(ctx, 150 if ctx.quick else 1500, race=False)
+    ctx.notes.append('phase stress %.1fs' % (time.time() - t0)); t0 = time.time()
     if prop == 'C04' or not ctx.quick:
         r2, races = stress(ctx, 60 if ctx.quick else 600, race=True)
         for r in r2:
             r['id'] += 100000
         runs += r2
+    ctx.notes.append('phase race stress %.1fs' % (time.time() - t0)); t0 = time.time()
     cov, items = judge_common(ctx, prop, progres, runs, races)
+    ctx.notes.append('phase judge %.1fs' % (time.time() - t0))
     return cov, items
 
 
